@@ -24,6 +24,8 @@ def check(rep, ctx):
     R_TOP = rep.rule("C14-one-top", "each version module has exactly one non-nested class", floor=600)
     R_UNI = rep.rule("C14-uniform", "every class of a module carries the module's version, flexibility, API key "
                      "and header schema (those of its top-level class)", floor=1500)
+    R_REF = rep.rule("C14-local-entities", "every entity class a module's fields refer to is defined in that module (and so carries its "
+                     "version, flexibility, key and header)", floor=900)
     R_PATH = rep.rule("C14-path", "module path (api, vN, type) = (snake(top class) minus _request/_response, "
                       "__version__, __type__)", floor=600)
     R_CONT = rep.rule("C14-contiguous", "versions of an (API, type) family are contiguous", floor=150)
@@ -47,6 +49,14 @@ def check(rep, ctx):
                       stmt=f"version={a[0]} flexible={a[1]} api_key={a[2]} header={a[3]}",
                       message=f"class variables differ from the module's top-level class {top['name']}: "
                               f"{a} vs {b}", **loc(S, c))
+        for c in m["classes"]:
+            for f in c["fields"]:
+                base, arr, outer, inner = S.base_of(f["type"])
+                n_ = base.get("n", "")
+                if n_.startswith("kio.schema.") and ":" in n_ and not n_.startswith(("kio.schema.types:", "kio.schema.errors:")):
+                    rep.check(R_REF, n_.split(":")[0] == mname, construct=f"{c['key']}.{f['name']}", stmt=f"{f['name']}: {n_}",
+                              message=f"the field's entity type {n_} is defined in another version module: it carries that module's version, "
+                                      f"flexibility and header schema, not this module's", file=m["path"], line=f["line"])
         exp = (basic_name(top["name"]), S.cv_const(top, "__version__"), S.cv_const(top, "__type__"))
         got = (m["api"], m["version"], m["type"])
         rep.check(R_PATH, exp == got, construct=top["key"], stmt=f"path={got}",
